@@ -51,6 +51,8 @@ type FanSpec struct {
 	Alg       AlgSpec
 	NoAttach  bool        // do not attach RPM curve data (the controller's Run does it)
 	CfgMap    map[int]int // pwmMap given in the configuration
+	// ModeStuck: the driver keeps reporting the control mode it had (writes to pwm_enable are silently ignored)
+	ModeStuck bool
 	// NoGetPwm / NoGetRpm: a command fan whose optional getPwm / getRpm command is not configured
 	NoGetPwm bool
 	NoGetRpm bool
@@ -318,6 +320,9 @@ func NewCtl(rec *Recorder, spec FanSpec, pwm0, mode0 int, avg0 float64) *Ctl {
 	}
 	c.VerifSetPwmMap(mm)
 	fan.SetRpmAvg(avg0)
+	if spec.ModeStuck && spec.HasMode && spec.Kind == "hwmon" {
+		env.Quant["mode"] = func(int) int { return mode0 }
+	}
 	ctl := &Ctl{Env: env, Rec: rec, Spec: spec, Fan: fan, C: c, Curve: curve, Loop: loop, Pers: pers}
 	// the Prometheus collectors of this fan and controller, as fan2go registers them
 	ctl.reg_ = prometheus.NewRegistry()
@@ -354,6 +359,7 @@ func (c *Ctl) EmitInit(extra Ev) {
 		"map": pairs(st.PwmMap), "n": c.Spec.N,
 		"alg": c.Spec.Alg,
 		"pwm": c.reg("pwm"), "mode": mode, "avgm": milli(c.Fan.GetRpmAvg()),
+		"modeStuck": c.Spec.ModeStuck && c.Spec.HasMode && c.Spec.Kind == "hwmon",
 	}
 	for k, v := range extra {
 		ev[k] = v
@@ -573,7 +579,7 @@ func (c *Ctl) SetAvg(a float64) {
 
 // Poke models a third party writing the fan's registers (mode < 0: leave the mode alone).
 func (c *Ctl) Poke(mode, pwm int) {
-	if mode >= 0 && c.Spec.HasMode {
+	if mode >= 0 && c.Spec.HasMode && !c.Spec.ModeStuck { // (a driver that ignores mode writes ignores everybody's)
 		c.Env.Set("mode", mode)
 	}
 	if pwm >= 0 {
